@@ -173,7 +173,8 @@ func ParseResolve(text string, sys resolve.System) (*resolve.Graph, error) {
 				Version:     r.requirement,
 			}
 			if err := g.AddError(src, vk, r.err); err != nil {
-				return nil, fmt.Errorf("cannot add an error to %s", g.Nodes[src].Version)
+				// The node may not exist (an error row below an error row).
+				return nil, fmt.Errorf("cannot add an error for %s: %v", vk, err)
 			}
 			continue
 		}
@@ -184,7 +185,8 @@ func ParseResolve(text string, sys resolve.System) (*resolve.Graph, error) {
 		}
 
 		if err := g.AddEdge(src, dst, r.requirement, r.dt); err != nil {
-			return nil, fmt.Errorf("cannot create edge from %s to %s", g.Nodes[src].Version, g.Nodes[dst].Version)
+			// Either end may not exist (a row below an error row).
+			return nil, fmt.Errorf("cannot create edge for %s@%s: %v", r.name, r.requirement, err)
 		}
 	}
 
